@@ -19,7 +19,11 @@
    An event is (stage, partition, index, value): stage 0 is the hidden tagging stage of the harness
    (mapPartitionsWithIndex), stages 1..k the pipeline, k+1 (and k+2) the functions passed to the action.
    Definitions only; the proofs are in PV.Proofs.Lazy. *)
-From Coq Require Import ZArith List Bool String.
+From Coq Require Import ZArith List Bool.
+From Coq Require String.
+Import String.StringSyntax.
+Local Open Scope string_scope.
+Local Open Scope Z_scope.
 Import ListNotations.
 Open Scope Z_scope.
 
@@ -197,7 +201,7 @@ Fixpoint sem_pipe (stages : list stage) (xs : list Z) : list Z :=
 
 (* results *)
 Inductive result : Type :=
-| RList (l : list Z) | RInt (z : Z) | RNone | RBool (b : bool) | RPairs (l : list (Z * Z)) | RErr (name : string).
+| RList (l : list Z) | RInt (z : Z) | RNone | RBool (b : bool) | RPairs (l : list (Z * Z)) | RErr (name : String.string).
 
 Fixpoint zinsert (x : Z) (l : list Z) : list Z :=
   match l with
